@@ -37,6 +37,10 @@ AUDITED = {
         "skipped_count is incremented at most once per input row held in memory (≤ isize::MAX rows)",
     ("matcher::bed_and_breakfast::match_bed_and_breakfast", "Overflow(Add)", "p1", "1"):
         "sell_idx is an index into the live transaction slice (PROV: i + offset in the day loop)",
+    ("ROLE:bnb", "Overflow(Add)", "p1", "1"):
+        "sell_idx is an index into the live transaction slice (PROV: i + offset in the day loop)",
+    ("ROLE:converter-rows", "Overflow(Add)"):
+        "skipped_count is incremented at most once per input row held in memory (≤ isize::MAX rows)",
     ("schwab::transactions::parse_date", "Overflow(Add)"):
         "pos is the result of find(\" as of \") on the same str; the needle is 7 ASCII bytes so pos + 7 ≤ len",
     ("schwab::transactions::parse_date", "str-range"):
@@ -49,6 +53,36 @@ AUDITED = {
 
 def _short(b):
     return b.short
+
+
+_ALIAS = {}
+
+
+def _role_alias(F, b):
+    """audited sites are also keyed by the ROLE of the function they sit in (found structurally), so that renaming the
+    function or moving the statement into a helper of the same role does not orphan the audit"""
+    if id(F) not in _ALIAS:
+        m = {}
+        try:
+            from rules.c08 import _R
+            R = _R(F)
+            for role, body in (("ROLE:prepass", R.prepass), ("ROLE:dayloop", R.dayloop), ("ROLE:bnb", R.legs.get("BedAndBreakfast", (None,))[0])):
+                if body is None:
+                    continue
+                for bid in R.region(body).bodies:
+                    m.setdefault(bid, role)
+                    for cid in F.children(bid):
+                        m.setdefault(cid, role)
+        except Exception:
+            pass
+        try:
+            import rules.c18 as c18
+            for rb, h, blks in c18.row_loops(F):
+                m.setdefault(rb.id, "ROLE:converter-rows")
+        except Exception:
+            pass
+        _ALIAS[id(F)] = m
+    return _ALIAS[id(F)].get(b.id)
 
 
 def run(ctx, rep):
@@ -86,7 +120,9 @@ def run(ctx, rep):
         shapes = tuple(P.shape(o) for o in ops)
         reason = why
         if reason is None:
-            reason = AUDITED.get((_short(b), msg) + shapes) or AUDITED.get((_short(b), msg))
+            al = _role_alias(F, b)
+            reason = AUDITED.get((_short(b), msg) + shapes) or AUDITED.get((_short(b), msg)) or \
+                (al and (AUDITED.get((al, msg) + shapes) or AUDITED.get((al, msg))))
             if reason:
                 reason = "audited: " + reason
         if reason is None and b.id not in reach:
@@ -100,7 +136,8 @@ def run(ctx, rep):
         reason = why
         kind = "index" if ity == "usize" else ("str-range" if cont.endswith("str") else "range:" + ity.split("::")[-1][:24])
         if reason is None:
-            r = AUDITED.get((_short(b), kind)) or RANGE_AUDIT.get((_short(b), kind))
+            al = _role_alias(F, b)
+            r = AUDITED.get((_short(b), kind)) or RANGE_AUDIT.get((_short(b), kind)) or (al and (AUDITED.get((al, kind)) or RANGE_AUDIT.get((al, kind))))
             if r:
                 reason = "audited: " + r
         if reason is None and "HashMap" in cont:
@@ -200,6 +237,11 @@ RANGE_AUDIT = {
         "same loop shape as Matcher::process",
     ("matcher::Matcher::compute_cost_offsets", "index"):
         "offsets[lot.transaction_idx]: offsets has transactions.len() entries and every lot index is an enumerate index of that slice",
+    # the same audits by role (the function found structurally as the cost pre-pass / day loop, with its helpers)
+    ("ROLE:prepass", "index"):
+        "offsets[lot.transaction_idx]: offsets has transactions.len() entries and every lot index is an enumerate index of that slice",
+    ("ROLE:prepass", "range:Range<usize>"): "day slices i..day_end with i ≤ day_end ≤ len (loop invariant of the day scan)",
+    ("ROLE:dayloop", "range:Range<usize>"): "day slices i..day_end with i ≤ day_end ≤ len (loop invariant of the day scan)",
 }
 
 
